@@ -745,6 +745,7 @@ def run_job(job, seed=0, replay_dir=None, cross_check=0):
 
     known_excl = [mk_not(p) for _, p in known]
     blind_pcs = []   # path conditions of the paths the model could not follow to the end: each is probed on the real code
+    done_pcs = []    # path conditions of completed paths (for the optional scattered replay)
     try:
         for path in ex.explore(body):
             res["paths"] += 1
@@ -765,6 +766,7 @@ def run_job(job, seed=0, replay_dir=None, cross_check=0):
                 res["inconclusive"].append(f"path {res['paths']}: observe: {e}")
                 continue
             pc = list(path.pc)
+            done_pcs.append(pc)
             # side conditions: the model's own domain (e.g. no division by zero) must cover all admissible inputs
             for cond, what in path.side:
                 r = ex.check(*pc, *known_excl, mk_not(cond))
@@ -899,6 +901,28 @@ def run_job(job, seed=0, replay_dir=None, cross_check=0):
         res["inconclusive"].append(f"exploration stopped: {e}")
     except Exception as e:
         res["inconclusive"].append(f"harness error: {e!r}\n{traceback.format_exc()[-1500:]}")
+    if getattr(job, "scatter_replay", 0) and not res["violations"] and not job.expect_canary_sat:
+        # jobs whose carrier the model represents only approximately (narrow integer dtypes: scalars taken out of such an array
+        # lose their width in the model): besides the solver's own witness per path, replay a few scattered inputs per path on
+        # the real code and evaluate the property there
+        try:
+            ms = _scattered_models(V, list(V.assumptions) + list(V.grid) + known_excl, done_pcs[:job.scatter_replay],
+                                   getattr(job, "name", "") + "/replay", per_path=2)
+            for m in ms:
+                if not exact_on_grid(S, m):
+                    continue
+                Sc, rout = real_outcome(m)
+                try:
+                    robl = job.holds(S, rout)
+                except Exception:
+                    continue
+                res["fallback_probes"] = res.get("fallback_probes", 0) + 1
+                bad = [lab for lab, f in robl if not concrete_truth(m, f)]
+                if bad:
+                    res["violations"].append(_violation(job, bad[0], Sc, rout, rout, m, replay_dir, via="scattered replay of the real code"))
+                    break
+        except Exception as e:
+            res["inconclusive"].append(f"scattered replay failed: {e!r}")
     if (res["inconclusive"] or res["mismatches"]) and not res["violations"] and not job.expect_canary_sat:
         try:
             fallback_probe(job, S, V, ex, res, real_outcome, known, replay_dir, blind_pcs=blind_pcs)
